@@ -41,6 +41,26 @@ extern _Bool cqv_alloc_failed;       /* some arena request (size != 0) returned 
 #define CQV_DEC_ASSIGNS(d) (d)->reader.pos, (d)->status, (d)->bool_pending, (d)->bool_value, \
                            __CPROVER_object_upto((d)->error_message, sizeof((d)->error_message))
 
+
+/* ---- C13 writer side: ghost stack of open structs (maintained by the thrift_write_* bodies below) ---- */
+#define CQV_WMAX 12
+struct cqv_wrec { int kind; int last; unsigned seen; int elem; };
+extern struct cqv_wrec cqv_w[CQV_WMAX];   /* one record per open struct: kind, last field id, set of ids written, open list elem type */
+extern int cqv_w_left[CQV_WMAX];          /* elements still owed to the list opened at that level */
+extern int cqv_w_depth;                   /* number of open structs */
+extern int cqv_w_pend;                    /* wire type of the value owed to the last field header (0 = none) */
+extern int cqv_w_next;                    /* kind of the struct that may be opened next (0 = none) */
+extern int cqv_w_root;                    /* kind of the outermost struct (set by the harness) */
+/* a write_<struct> helper is called when a struct of kind K is owed (as a field value or as a list element) */
+#define CQV_W_REQ(K) (cqv_w_depth >= 1 && cqv_w_depth <= 6 && cqv_w_next == (K) && \
+                      (cqv_w_pend == W_STRUCT || (cqv_w_pend == 0 && cqv_w_left[cqv_w_depth - 1] > 0)))
+#define CQV_W_ASSIGNS(e) cqv_w_depth, cqv_w_pend, cqv_w_next, cqv_w_left[cqv_w_depth - 1], \
+                      __CPROVER_object_from(&cqv_w[cqv_w_depth]), __CPROVER_object_from(&cqv_w_left[cqv_w_depth]), (e)->status
+/* ... and returns with exactly that one struct written and closed; records of the enclosing structs untouched (frame) */
+#define CQV_W_POST (cqv_w_depth == __CPROVER_old(cqv_w_depth) && cqv_w_pend == 0 && \
+    cqv_w_left[cqv_w_depth - 1] == __CPROVER_old(cqv_w_left[cqv_w_depth - 1]) - (__CPROVER_old(cqv_w_pend) == W_STRUCT ? 0 : 1) && \
+    cqv_w_next == ((__CPROVER_old(cqv_w_pend) != W_STRUCT && cqv_w_left[cqv_w_depth - 1] > 0) ? __CPROVER_old(cqv_w_next) : 0))
+
 #ifdef CQV_ALLOC_NEVER_FAILS
 #define CQV_MAYFAIL(ret) ((ret) != NULL)
 #else
@@ -166,4 +186,109 @@ void carquet_error_set(carquet_error_t* error, carquet_status_t code, const char
     error->code = code;
   }
 }
+
+#ifdef CQV_PT_WRITER
+/* ---- C13 writer side: thrift_write_* as bodies that check the byte stream's STRUCTURE against parquet.thrift ---- */
+struct cqv_wrec cqv_w[CQV_WMAX];
+int cqv_w_left[CQV_WMAX];
+int cqv_w_depth, cqv_w_pend, cqv_w_next, cqv_w_root;
+
+static void cqv_w_fail(thrift_encoder_t* enc) {   /* any primitive may run out of buffer memory */
+  __CPROVER_precondition(__CPROVER_rw_ok(enc, sizeof(*enc)), "encoder object accessible");
+  if (enc->status == CARQUET_OK && nondet_bool()) enc->status = CARQUET_ERROR_OUT_OF_MEMORY;
+}
+/* a value of wire type w is written: it is either the value owed to the last field header or a list element */
+static void cqv_w_value(thrift_encoder_t* enc, int w) {
+  cqv_w_fail(enc);
+  if (cqv_w_pend != 0) {
+    __CPROVER_assert(cqv_w_pend == w, "C13 writer: value written has the wire type announced in the field header");
+    cqv_w_pend = 0;
+  } else {
+    __CPROVER_assert(cqv_w_depth >= 1 && cqv_w_depth <= CQV_WMAX, "C13 writer: value written inside a struct");
+    __CPROVER_assert(cqv_w_left[cqv_w_depth - 1] > 0, "C13 writer: no field header announces this value and no list element is owed");
+    __CPROVER_assert(cqv_w[cqv_w_depth - 1].elem == w, "C13 writer: list element has the element type announced in the list header");
+    cqv_w_left[cqv_w_depth - 1]--;
+  }
+}
+void thrift_encoder_init(thrift_encoder_t* enc, carquet_buffer_t* buffer) {
+  __CPROVER_precondition(__CPROVER_w_ok(enc, sizeof(*enc)), "encoder object writable");
+  enc->buffer = buffer; enc->nesting_level = 0; enc->status = CARQUET_OK;
+  cqv_w_depth = 0; cqv_w_pend = 0; cqv_w_next = cqv_w_root;
+}
+void thrift_write_byte(thrift_encoder_t* enc, int8_t value) { cqv_w_value(enc, W_I8); }
+void thrift_write_i16(thrift_encoder_t* enc, int16_t value) { cqv_w_value(enc, W_I16); }
+void thrift_write_i32(thrift_encoder_t* enc, int32_t value) { cqv_w_value(enc, W_I32); }
+void thrift_write_i64(thrift_encoder_t* enc, int64_t value) { cqv_w_value(enc, W_I64); }
+void thrift_write_binary(thrift_encoder_t* enc, const uint8_t* data, int32_t length) {
+  __CPROVER_assert(length >= 0, "C13 writer: binary length is non-negative");
+  __CPROVER_precondition(length <= 0 || data == NULL || __CPROVER_r_ok(data, (size_t)length), "binary payload readable");
+  cqv_w_value(enc, W_BIN);
+}
+void thrift_write_string(thrift_encoder_t* enc, const char* str) {
+  __CPROVER_precondition(str == NULL || __CPROVER_r_ok(str, 1), "string readable");
+  cqv_w_value(enc, W_BIN);
+}
+void thrift_write_field_header(thrift_encoder_t* enc, int type, int16_t field_id) {
+  cqv_w_fail(enc);
+  __CPROVER_assert(cqv_w_depth >= 1 && cqv_w_depth <= CQV_WMAX, "C13 writer: field header inside a struct");
+  struct cqv_wrec* r = &cqv_w[cqv_w_depth - 1];
+  __CPROVER_assert(cqv_w_pend == 0, "C13 writer: the previous field's value was written before the next header");
+  __CPROVER_assert(cqv_w_left[cqv_w_depth - 1] == 0, "C13 writer: list has exactly the announced number of elements");
+  int w = cqv_pt_wire(r->kind, field_id);
+  __CPROVER_assert(w != 0, "C13 writer: (struct, field id) is a row of parquet.thrift");
+  __CPROVER_assert(cqv_pt_wire_matches(w, type), "C13 writer: wire type is the one parquet.thrift declares for this field");
+  __CPROVER_assert(field_id > r->last, "C13 writer: field ids strictly ascending within a struct");
+  r->last = field_id;
+  if (field_id >= 0 && field_id < 32) r->seen |= 1u << field_id;
+  r->elem = 0;
+  cqv_w_pend = (type == 1 || type == 2) ? 0 : type;      /* bool value lives in the header */
+  cqv_w_next = (type == W_STRUCT) ? cqv_pt_child(r->kind, field_id) : 0;
+}
+void thrift_write_list_begin(thrift_encoder_t* enc, int elem_type, int32_t count) {
+  cqv_w_fail(enc);
+  __CPROVER_assert(cqv_w_depth >= 1 && cqv_w_depth <= CQV_WMAX, "C13 writer: list inside a struct");
+  struct cqv_wrec* r = &cqv_w[cqv_w_depth - 1];
+  __CPROVER_assert(cqv_w_pend == W_LIST, "C13 writer: list header follows a LIST field header");
+  __CPROVER_assert(count >= 0, "C13 writer: list count is non-negative");
+  __CPROVER_assert(elem_type == cqv_pt_elem(r->kind, r->last), "C13 writer: list element type is the one parquet.thrift declares");
+  cqv_w_pend = 0;
+  r->elem = elem_type;
+  cqv_w_left[cqv_w_depth - 1] = count;
+  cqv_w_next = (elem_type == W_STRUCT && count > 0) ? cqv_pt_child(r->kind, r->last) : 0;
+}
+void thrift_write_struct_begin(thrift_encoder_t* enc) {
+  cqv_w_fail(enc);
+  __CPROVER_assert(cqv_w_depth >= 0 && cqv_w_depth < CQV_WMAX, "C13 writer: nesting depth within the ghost stack");
+  __CPROVER_assert(cqv_w_next != K_NONE, "C13 writer: a struct may be opened here (root, STRUCT field value or list<struct> element)");
+  if (cqv_w_depth > 0) {
+    if (cqv_w_pend != 0) {
+      __CPROVER_assert(cqv_w_pend == W_STRUCT, "C13 writer: struct opened as the value of a STRUCT field");
+      cqv_w_pend = 0;
+    } else {
+      __CPROVER_assert(cqv_w_left[cqv_w_depth - 1] > 0 && cqv_w[cqv_w_depth - 1].elem == W_STRUCT, "C13 writer: struct opened as an owed list element");
+      cqv_w_left[cqv_w_depth - 1]--;
+    }
+  }
+  cqv_w[cqv_w_depth].kind = cqv_w_next; cqv_w[cqv_w_depth].last = 0; cqv_w[cqv_w_depth].seen = 0; cqv_w[cqv_w_depth].elem = 0;
+  cqv_w_left[cqv_w_depth] = 0;
+  cqv_w_depth++;
+  cqv_w_next = 0;
+}
+void thrift_write_struct_end(thrift_encoder_t* enc) {
+  cqv_w_fail(enc);
+  __CPROVER_assert(cqv_w_depth >= 1 && cqv_w_depth <= CQV_WMAX, "C13 writer: struct_end matches a struct_begin");
+  struct cqv_wrec* r = &cqv_w[cqv_w_depth - 1];
+  __CPROVER_assert(cqv_w_pend == 0, "C13 writer: last field's value was written before STOP");
+  __CPROVER_assert(cqv_w_left[cqv_w_depth - 1] == 0, "C13 writer: list has exactly the announced number of elements (at STOP)");
+  unsigned req = cqv_pt_required(r->kind);
+  __CPROVER_assert((r->seen & req) == req, "C13 writer: every required field of the struct was written");
+  if (cqv_pt_is_union(r->kind))
+    __CPROVER_assert(r->seen != 0 && (r->seen & (r->seen - 1)) == 0, "C13 writer: exactly one member of a union is set");
+  cqv_w_depth--;
+  if (cqv_w_depth >= 1 && cqv_w_left[cqv_w_depth - 1] > 0 && cqv_w[cqv_w_depth - 1].elem == W_STRUCT)
+    cqv_w_next = cqv_pt_child(cqv_w[cqv_w_depth - 1].kind, cqv_w[cqv_w_depth - 1].last);
+  else
+    cqv_w_next = 0;
+}
+#endif /* CQV_PT_WRITER */
 #endif /* !CQV_PT_DECLS */
